@@ -12,30 +12,76 @@ from ..common import LEAN, VERIF, seed_rng, write_if_changed
 from ..slchecks import make_curve
 from .. import numref
 
-PROP_MODS = ['Stbem.Props.C03']
-RULE = ('tie: the statements that assemble mat / rhs / Phi are cut out of example.py by ast and executed on a synthetic '
+PROP_MODS = ['Stbem.Props.C03', 'Stbem.Props.C03Problems']
+RULE = ('problems.py: every function problem_helper can hand out (14: u0, M0u0, u-trace, g, g-linform of the four factories and '
+        'the two Dirichlet branches, the two complex-erf M0u0 included) and its dispatch table are regenerated into Lean '
+        '(Gen/ProblemsQ.lean, Gen/ProblemsR.lean); the REAL functions run on exact (Gaussian) rationals with rational stand-ins '
+        'for exp/sqrt/sin/erf/erfc/pi and must equal the generated terms evaluated by the driver, all 16 name pairs and '
+        'inadmissible names must give the generated table / assertion; the theorems of Props/C03Problems.lean are about the '
+        'generated terms. tie: the statements that assemble mat / rhs / Phi are cut out of example.py by ast and executed on a synthetic '
         'causal operator with polynomial potentials whose element integrals are known; the REAL '
         'ErrorEstimator.residual (both evaluation switches) built from that solution must have element means that '
         'vanish to rounding on random non-uniform meshes; the five signs and the row/column convention are '
         'regenerated into Lean (Gen/Conventions.lean) where their consistency is a theorem. search: the real problems '
         '(Dirichlet, MildSingular on every closed curve, Singular on unit square and L-shape, Smooth on the squares) '
-        'on small meshes, both switches: |int_E r| <= 5e-5 int_E |r| + 1e-12 with a graded rule resolving the kinks. '
+        'on small meshes, both switches: |int_E r| <= 5e-5 int_E |r| + 1e-12 with a graded rule resolving the kinks; the data '
+        'of problems.py on floats against model-independent references: g-linform = Gauss integral of g over real elements '
+        '(1e-12), every M0u0 (complex-erf forms included) = composite Gauss heat-kernel convolution of u0 over the domain '
+        'rectangles at random (t, x) (1e-9), u-trace = central-difference outward normal derivative of e^{-lambda t} u0 along '
+        'the real parametrisation (1e-4). '
         'non-trivial = element with a non-zero residual; distinct = (problem, domain, mesh, switch, element).')
 TRUSTED = [
     'Lean 4.33 kernel; axioms propext, Classical.choice, Quot.sound only',
     'translate/conventions.py (ast patterns of example.py, error_estimator.py, single_layer.py)',
     'on real data every hypothesis of the orthogonality theorem holds only to quadrature accuracy: search only (partial)',
-    'the complex-erf closed forms M0u0 of the Smooth problems are not verified in Lean (exercised by the search)',
+    'translate/problemdefs.py (ast of problems.py; validated on every run by exact execution of the real functions)',
+    'special functions of problems.py are parameters: erf : R -> R with erf\' = 2/sqrt(pi) exp(-x^2), odd, -> 1 at +oo; for the '
+    'complex-erf closed forms cerf : C -> C with complex derivative 2/sqrt(pi) exp(-z^2), odd, cexp = Complex.exp, erfc = 1 - erf '
+    '(a model satisfying all laws is constructed in Lean); that SciPy\'s erf / NumPy\'s exp are these functions is trusted',
+    'not proved: heat equation / initial value for the two Smooth M0u0 (only their potential representation is proved)',
+    'literal quotients such as 1 / 3 are evaluated by Python in binary64: the theorems use the ideal value, the executable '
+    'term the rounded one; Lean proves the relative distance <= 2^-53',
 ]
 ASSUMPTIONS = ['linearity of the element means; exact arithmetic in the theorems']
 
 sys.path.insert(0, os.path.join(VERIF, 'translate'))
 
 
+PROBLEMS_TR = [None]
+
+
+def translate_problems(res):
+    """problems.py -> Gen/ProblemsQ.lean, Gen/ProblemsR.lean (also used by C08)."""
+    import problemdefs
+    repo = os.environ.get('STBEM_REPO', '/repo')
+    tr = problemdefs.generate(repo, os.path.join(LEAN, 'Stbem', 'Gen'), write_if_changed)
+    PROBLEMS_TR[0] = tr
+    res.notes['problems_translated_functions'] = len(tr['funs'])
+    res.notes['problems_translated'] = [f.lean for f in tr['funs']]
+    res.notes['problems_not_translated'] = []
+    res.notes['problems_rounded_literals'] = [(f.lean, l[3]) for f in tr['funs'] for l in f.lits]
+
+
 def translate(res):
     import conventions
-    c = conventions.generate(os.environ.get('STBEM_REPO', '/repo'), os.path.join(LEAN, 'Stbem', 'Gen'), write_if_changed)
+    repo = os.environ.get('STBEM_REPO', '/repo')
+    c = conventions.generate(repo, os.path.join(LEAN, 'Stbem', 'Gen'), write_if_changed)
     res.notes['conventions'] = c
+    translate_problems(res)
+
+
+def correspond_problems(res, tier):
+    """problems.py: the real functions on exact numbers against the generated terms; the dispatch table."""
+    from .. import problems_tie
+    tr = PROBLEMS_TR[0]
+    if tr is None:
+        res.broken_obligation('correspondence C03: problems.py', 'translate/problemdefs.py did not produce a translation')
+        return
+    rng = seed_rng(res.seed, 'C03p')
+    bad = problems_tie.validate(res, rng, tr, 8 if tier == 'quick' else 60)
+    for b in bad[:10]:
+        res.broken_obligation('correspondence C03: generated term of problems.py disagrees with the running function', repr(b))
+    res.sample(dict(problems_py=dict(functions=len(tr['funs']), disagreements=len(bad))))
 
 
 def assembly_slice():
@@ -160,6 +206,7 @@ def real_mesh(rng, cname, n_ops):
 
 def correspond(res, tier):
     from src.error_estimator import ErrorEstimator
+    correspond_problems(res, tier)
     rng = seed_rng(res.seed, 'C03')
     code, text = assembly_slice()
     res.sample(dict(assembly_statements=text))
@@ -200,8 +247,105 @@ def graded_both(n=8, levels=10, q=0.25):
     return x, np.concatenate([0.5 * w, 0.5 * w])
 
 
+
+# ---------------------------------------------------------------------------------------------------------
+DOMAIN_RECTS = {'UnitSquare': [(0.0, 1.0, 0.0, 1.0)], 'PiSquare': [(0.0, np.pi, 0.0, np.pi)],
+                'LShape': [(-1.0, 0.0, 0.0, 1.0), (0.0, 1.0, 0.0, 1.0), (0.0, 1.0, -1.0, 0.0)]}
+
+
+def search_problems(res, tier):
+    """The data of problems.py on floats against references that use neither the model nor the repo's quadrature:
+    (1) g-linform = tensor Gauss-Legendre integral of g over real elements (polynomial data: exact to rounding);
+    (2) M0u0 (all four closed forms, the complex-erf ones included) = heat-kernel convolution of u0 over the rectangles of
+        the domain, composite tensor Gauss-Legendre, at random (t, x) in the plane and on the boundary curve;
+    (3) u-trace = outward normal derivative (central differences along the real parametrisation) of e^{-lambda t} u0, with
+        lambda = -Laplace(u0)/u0 measured by finite differences at an interior point (u0 is an eigenfunction)."""
+    from problems import problem_helper
+    rng = seed_rng(res.seed, 'C03pd')
+    n = 6 if tier == 'quick' else 40
+    xg, wg = numref.gl(6)
+    # (1)
+    for problem in ('Dirichlet', 'MildSingular'):
+        for domain in ('UnitSquare', 'Circle', 'LShape'):
+            data = problem_helper(problem, domain)
+            gamma, mesh = real_mesh(rng, domain, rng.randint(2, 6))
+            elems = list(mesh.leaf_elements)
+            vals = data['g-linform'](elems)
+            for e, v in zip(elems, vals):
+                (ta, tb), (xa, xb) = map(float, e.time_interval), map(float, e.space_interval)
+                ref = 0.0
+                for tq, wt in zip(ta + (tb - ta) * xg, (tb - ta) * wg):
+                    pts = e.gamma_space(xa + (xb - xa) * xg)
+                    ref += wt * sum((xb - xa) * wx * float(data['g'](tq, pts[:, [j]])) for j, wx in enumerate(wg))
+                res.count(('g-linform', problem, domain, ta, tb, xa, xb), True)
+                if abs(float(v) - ref) > 1e-12 * max(1.0, abs(ref)):
+                    res.violation('C03:g-linform-not-integral-of-g:%s' % problem,
+                                  dict(problem=problem, domain=domain, elem=dict(t=[ta, tb], x=[xa, xb]), g_linform=float(v),
+                                       integral_of_g=ref))
+    # (2), (3)
+    xq, wq = numref.gl(24)
+    worst = 0.0
+    for problem, domain in (('Singular', 'UnitSquare'), ('Singular', 'LShape'), ('Smooth', 'UnitSquare'), ('Smooth', 'PiSquare')):
+        data = problem_helper(problem, domain)
+        gamma = make_curve(domain)
+        L = float(gamma.gamma_length)
+        side = 1.0 if domain != 'PiSquare' else np.pi
+        for it in range(n):
+            t = rng.uniform(0.02, 1.0) * side**2
+            if it % 2:
+                x = np.asarray(gamma.eval(np.array([rng.uniform(0, L)])), dtype=float).reshape(2, 1)
+            else:
+                x = np.array([[rng.uniform(-1.5, 2.0) * side], [rng.uniform(-1.5, 2.0) * side]])
+            ref = 0.0
+            for (x0, x1, y0, y1) in DOMAIN_RECTS[domain]:
+                # composite rule: 4 x 4 panels of 24 x 24 points
+                for i in range(4):
+                    for j in range(4):
+                        X = x0 + (x1 - x0) * (i + xq) / 4
+                        Y = y0 + (y1 - y0) * (j + xq) / 4
+                        XX, YY = np.meshgrid(X, Y, indexing='ij')
+                        W = np.outer(wq, wq) * (x1 - x0) * (y1 - y0) / 16
+                        G = np.exp(-((x[0, 0] - XX)**2 + (x[1, 0] - YY)**2) / (4 * t)) / (4 * np.pi * t)
+                        U = np.asarray(data['u0'](np.array([XX.ravel(), YY.ravel()])), dtype=float) * np.ones(XX.size)
+                        ref += float(np.sum(W.ravel() * G.ravel() * U))
+            cf = float(np.squeeze(data['M0u0'](t, x)))
+            err = abs(cf - ref)
+            worst = max(worst, err)
+            res.count(('M0u0', problem, domain, t, float(x[0, 0]), float(x[1, 0])), True)
+            if err > 1e-9 * max(1.0, abs(ref)):
+                res.violation('C03:M0u0-not-potential-of-u0:%s:%s' % (problem, domain),
+                              dict(problem=problem, domain=domain, t=t, x=[float(x[0, 0]), float(x[1, 0])], closed_form=cf,
+                                   heat_kernel_convolution=ref))
+        if 'u-trace' not in data:
+            continue
+        u0 = lambda p: float(np.squeeze(data['u0'](np.asarray(p, dtype=float).reshape(2, 1))))  # noqa: E731
+        p0, h = np.array([0.37 * side, 0.29 * side]), 1e-3 * side
+        lap = (u0(p0 + [h, 0]) + u0(p0 - [h, 0]) + u0(p0 + [0, h]) + u0(p0 - [0, h]) - 4 * u0(p0)) / h**2
+        lam = -lap / u0(p0)
+        brk = [float(b) for b in gamma.pw_start]
+        for it in range(2 * n):
+            t = rng.uniform(0.0, 0.3) * side**2
+            k = rng.randrange(len(brk) - 1)
+            xh = rng.uniform(brk[k] + 1e-3 * side, brk[k + 1] - 1e-3 * side)
+            d = 1e-6 * side
+            p = np.asarray(gamma.eval(np.array([xh])), dtype=float).ravel()
+            tau = (np.asarray(gamma.eval(np.array([xh + d])), dtype=float).ravel() -
+                   np.asarray(gamma.eval(np.array([xh - d])), dtype=float).ravel()) / (2 * d)
+            nrm = np.array([tau[1], -tau[0]])   # outward for a counter-clockwise curve
+            hh = 1e-5 * side
+            ref = np.exp(-lam * t) * (u0(p + hh * nrm) - u0(p - hh * nrm)) / (2 * hh)
+            val = float(np.squeeze(data['u-trace'](t, xh)))
+            res.count(('u-trace', domain, t, xh), True)
+            if abs(val - ref) > 1e-4 * max(1.0, abs(lap)):
+                res.violation('C03:u-trace-not-normal-derivative:%s' % domain,
+                              dict(problem=problem, domain=domain, t=t, x_hat=xh, side=k, u_trace=val, normal_derivative=ref,
+                                   decay_rate=lam))
+    res.notes['problems_worst_M0u0_vs_convolution'] = worst
+
+
 def search(res, tier, boost=False):
     from problems import problem_helper
+    search_problems(res, tier)
     from src.error_estimator import ErrorEstimator
     from src.initial_mesh import LShapeBoundaryRefined, PiSquareBoundaryRefined, UnitSquareBoundaryRefined
     from src.initial_potential import InitialOperator
